@@ -148,7 +148,9 @@ func mkBLS[
 		}
 		return true, ""
 	}
-	leaf := func(x *engine.X, s *structure, a catalog.IDAssignment, kg proto.C01Keygen, mode blsMode, msgs []int) {
+	leaf := func(x0 *engine.X, s *structure, a catalog.IDAssignment, kg proto.C01Keygen, mode blsMode, msgs []int) {
+		x := newOnce(x0)
+		defer x.flush()
 		fk := fmt.Sprintf("boldyreva/%s/%s", v.Name, mode.name)
 		where := fmt.Sprintf("%s %s ids=%s(%s) keygen=%s", fk, s.e.Name, a.Name, idsString(a.IDs), kg)
 		km, err := getKeys(s, a, kg)
@@ -344,6 +346,7 @@ func blsLeaves(structs []*structure, plan func(f string, mode string, s *structu
 }
 
 func blsBody(leaves []blsLeaf) func(*engine.X) {
+	leaves = capLeaves(leaves)
 	return func(x *engine.X) {
 		l := leaves[x.Choose("leaf", len(leaves))]
 		l.f.leaf(x, l.s, l.a, l.kg, l.mode, l.msgs)
